@@ -49,22 +49,43 @@ class AwesomeyamlLoader(yaml.Loader):
         return ret
 
     @staticmethod
-    def _make_generator(value, update_fn):
+    def _make_generator(value, update_fn, unfilled=None):
         yield
+        if unfilled is not None:
+            unfilled.pop(id(value), None)
         update_fn(value)
 
     def construct_object(self, node, deep=False, convert=True):
+        # A container which pyyaml constructs lazily (not "deep") is returned empty, together with a generator - queued in
+        # "state_generators" - which fills it later.  Keep track of the values still waiting for that: a yaml node can be
+        # constructed again before it happens - every alias (*name) refers to the node of its anchor - and pyyaml then simply
+        # hands back the same, still empty, value.
+        unfilled = self.__dict__.setdefault('_unfilled_values', {})
+        queued = len(self.state_generators)
         value = super().construct_object(node, deep=deep)
         if not convert:
             return value
 
+        is_container = isinstance(node, (yaml.SequenceNode, yaml.MappingNode)) and not isinstance(value, ConfigNode)
+        if is_container:
+            if len(self.state_generators) > queued:
+                unfilled[id(value)] = self.state_generators[-1]
+            elif id(value) in unfilled:
+                # constructed again (an alias): fill the value right away, so that the config node created below is complete
+                # like any other child (the exhausted generator does nothing when its turn comes)
+                pending = unfilled.pop(id(value))
+                try:
+                    for _ in pending:
+                        pass
+                except ValueError: # a recursive structure - the value is being filled at this very moment
+                    unfilled[id(value)] = pending
+
         aynode = self._convert(value, node)
 
-        if not (deep or self.deep_construct) and value is not aynode:
-            if isinstance(node, yaml.SequenceNode):
-                self.state_generators.append(self._make_generator(value, aynode.extend))
-            elif isinstance(node, yaml.MappingNode):
-                self.state_generators.append(self._make_generator(value, aynode.update))
+        if is_container and value is not aynode and id(value) in unfilled:
+            # created from a value which is still empty: fill the config node once pyyaml has filled the value
+            update_fn = aynode.extend if isinstance(node, yaml.SequenceNode) else aynode.update
+            self.state_generators.append(self._make_generator(value, update_fn, unfilled))
 
         return aynode
 
